@@ -138,3 +138,23 @@ def pick_labels(rng, m, pool=None):
 
 def nodes_of(edges):
     return sorted({x for e in edges for x in e})
+
+
+def lookalikes(curie):
+    """absent ids that a 'normalising' id class would take for `curie` (PREFIX:ID with ':'): other zero padding, sign, blanks
+    around the parts, digit group separators, non-ASCII decimal digits, other letter case of the prefix.  As strings all of
+    them differ from `curie`, so as term ids they are different ids."""
+    if ':' not in curie:
+        return []
+    p, d = curie.split(':', 1)
+    out = [p + ':0' + d, p + ':' + d + ' ', ' ' + p + ':' + d, p + ':' + d + '\t']
+    if d[:1] == '0' and len(d) > 1:
+        out += [p + ':' + d[1:], p + ':+' + d[1:], p + ': ' + d[1:], p + ':' + d[1:] + ' ']
+    if d[:2] == '00' and len(d) > 3 and d[2:].isdigit():
+        out.append(p + ':0_' + d[2:])
+    if d.isascii() and d.isdigit():
+        out.append(p + ':' + ''.join(chr(0xFF10 + int(ch)) for ch in d))
+    for q in (p.lower(), p.upper(), p.capitalize()):
+        if q != p:
+            out.append(q + ':' + d)
+    return [x for x in dict.fromkeys(out) if x != curie]
